@@ -323,7 +323,7 @@ Plan generatePlan(uint64_t seed, uint64_t run, const std::string& property, bool
     Plan p;
     bool edge = property == "C12" ? knob.chance(0.7) : knob.chance(0.15);
     // a fixed share of the batch is generated with the known-finding feature switched off
-    bool dtorErr = allowDtorErr && edge && knob.chance(0.02);
+    bool dtorErr = allowDtorErr && edge && knob.chance(0.25);
     // likewise for the qubit-owner-in-a-garbage-cycle feature (known finding D19): 3 % of C11 programs
     bool qcycle = allowQcycle && property == "C11" && knob.chance(0.03);
     p.prog = classprog::generate(gen, edge, dtorErr, qcycle);
@@ -549,7 +549,7 @@ int main(int argc, char** argv) {
     }
     sim::KnownFindings kf;
     kf.load(opt.knownFile);
-    bool allowDtorErr = opt.property == "C12" && kf.match("C12", "terminate:error_in_user_destructor") != nullptr;
+    bool allowDtorErr = true;   // errors inside user destructors are ordinary runtime errors since fix D13
     g_allowQcycle = opt.property == "C11" && kf.match("C11", "qubit_owner_in_garbage_cycle_dies_at_collection") != nullptr;
 
     bool thorough = opt.tier == "thorough";
